@@ -2,6 +2,7 @@
   C09 — The configured line ending is used everywhere and input endings do not matter.
 -/
 import PasfmtModel.Proofs.ReconProps
+import PasfmtModel.Proofs.MlsBreaks
 
 namespace Pasfmt.C09
 
@@ -35,5 +36,14 @@ theorem emitted_breaks_are_nl (c : Config) (t : FTok) (mb : Bool) (h : t.fmt.ign
 /-- the whitespace counters do not depend on whether the input's breaks are LF or CRLF -/
 theorem fmtdata_crlf (ws : Bytes) (ig : Bool) : (FmtData.ofWs (crlfOf ws) ig).nl = (FmtData.ofWs ws ig).nl := by
   unfold FmtData.ofWs; simp only; rw [ofWs_nl_crlf]
+
+/-- every line break inside a re-indented multi-line string is the configured line ending: the
+    rewritten literal is its first line followed by segments, each introduced by `nlStr` and free of
+    `\n` / `\r` itself (for the settings of every configuration) -/
+theorem mls_breaks_are_configured (cfg : Config) (content : Bytes) (ind cont : Nat) (c' : Bytes)
+    (h : mlsRewrite cfg.settings content ind cont = some c') :
+    ∃ (first : Bytes) (segs : List Bytes),
+      c' = first ++ (segs.map (cfg.settings.nlStr ++ ·)).flatten ∧ NoNl first ∧ ∀ s ∈ segs, NoNl s :=
+  mlsRewrite_breaks cfg.settings (settings_noNl cfg).1 (settings_noNl cfg).2 content ind cont c' h
 
 end Pasfmt.C09
